@@ -418,6 +418,31 @@ def run_shard(ctx):
         elif mode == 3:
             args["default_language"] = a
         judge(ctx, f.to_sheets(), f"lang|{a}|{b}|{mode}", "language-label", args=args)
+    # (c2) both id headers on the settings sheet: the warning is about the two HEADERS, whatever their order, spelling or cells
+    kk = 0
+    for h_form in ("form_id", "Form_ID", "set_form_id", "form id"):
+        for h_ids in ("id_string", "ID_STRING"):
+            for order in (0, 1):
+                for blank in (None, "form", "ids", "both"):
+                    kk += 1
+                    if not ctx.mine(kk):
+                        continue
+                    vals = {h_form: None if blank in ("form", "both") else "fid", h_ids: None if blank in ("ids", "both") else "ids_value", "form_title": "T"}
+                    keys = [h_form, h_ids] if order == 0 else [h_ids, h_form]
+                    f = gen.simple_form([("text", "q1", {"label": "Q"})])
+                    f.settings = {k: vals[k] for k in keys + ["form_title"]}
+                    sheets = f.to_sheets()
+                    o = drive.convert_sheets(sheets)
+                    ctx.ctr("both_id_header_cases")
+                    if not o.ok:
+                        ctx.ctr("rejected:both-ids")
+                        continue
+                    ctx.case(sig=f"both-ids|{h_form}|{h_ids}|{order}|{blank}")
+                    ctx.ctr("forms_judged")
+                    got = recognise(o.warnings)["dup_id"]
+                    if len(got) != 1:
+                        ctx.viol("dup_id:not-emitted" if not got else "dup_id:count", f"[both-ids] settings headers {keys} (blank cell: {blank}): {len(got)} 'both specified' warnings",
+                                 {"sheets_md": common.sheets_to_md(sheets), "warnings": o.warnings[:6], "klass": "both-ids", "sheets": {k: [list(h), rows] for k, (h, rows) in sheets.items()}, "args": {}, "fmt": "dict"})
     # (d) row-level triggers in generated forms
     for i in range(pl["n"]):
         if not ctx.mine(i):
